@@ -268,12 +268,12 @@ type worker struct {
 	nontrivial int
 
 	estimateChecks int
-	flips      int
-	multiCoin  int
-	skipped    int
-	maxInputs  int
-	samples    map[int]string
-	outcomes   map[string]int
+	flips          int
+	multiCoin      int
+	skipped        int
+	maxInputs      int
+	samples        map[int]string
+	outcomes       map[string]int
 }
 
 func typeMask(ts []inType) int {
